@@ -19,32 +19,33 @@ use std::cell::{Cell, RefCell};
 use std::collections::HashMap;
 use std::rc::Rc;
 
-pub struct Ctl { pub script: RefCell<Vec<bool>>, pub next: Cell<usize>, pub active: Cell<bool>, pub calls: RefCell<Vec<&'static str>> }
+pub struct Ctl { pub script: RefCell<Vec<i64>>, pub next: Cell<usize>, pub active: Cell<bool>, pub calls: RefCell<Vec<&'static str>> }
 impl Ctl {
-  fn hit(&self, name: &'static str) -> bool {
-    if !self.active.get() { return false; }
+  /// 0 = the call goes through; otherwise the KIND of the injected failure (the property quantifies over every failure, whatever its kind)
+  fn hit(&self, name: &'static str) -> i64 {
+    if !self.active.get() { return 0; }
     self.calls.borrow_mut().push(name);
     let i = self.next.get(); self.next.set(i + 1);
-    self.script.borrow().get(i).copied().unwrap_or(false)
+    self.script.borrow().get(i).copied().unwrap_or(0)
   }
 }
 pub struct FaultyJwk { pub inner: JwkMemStore, pub ctl: Rc<Ctl> }
 pub struct FaultyKid { pub inner: KeyIdMemstore, pub ctl: Rc<Ctl> }
-fn kerr() -> KeyStorageError { KeyStorageError::new(KeyStorageErrorKind::Unspecified) }
-fn ierr() -> KeyIdStorageError { KeyIdStorageError::new(KeyIdStorageErrorKind::Unspecified) }
+fn kerr(k: i64) -> KeyStorageError { KeyStorageError::new(match k { 2 => KeyStorageErrorKind::KeyNotFound, 3 => KeyStorageErrorKind::Unavailable, 4 => KeyStorageErrorKind::KeyAlgorithmMismatch, 5 => KeyStorageErrorKind::RetryableIOFailure, _ => KeyStorageErrorKind::Unspecified }) }
+fn ierr(k: i64) -> KeyIdStorageError { KeyIdStorageError::new(match k { 2 => KeyIdStorageErrorKind::KeyIdNotFound, 3 => KeyIdStorageErrorKind::Unavailable, 4 => KeyIdStorageErrorKind::KeyIdAlreadyExists, 5 => KeyIdStorageErrorKind::RetryableIOFailure, _ => KeyIdStorageErrorKind::Unspecified }) }
 #[async_trait(?Send)]
 impl JwkStorage for FaultyJwk {
-  async fn generate(&self, key_type: KeyType, alg: JwsAlgorithm) -> KeyStorageResult<JwkGenOutput> { if self.ctl.hit("generate") { return Err(kerr()); } self.inner.generate(key_type, alg).await }
-  async fn insert(&self, jwk: Jwk) -> KeyStorageResult<KeyId> { if self.ctl.hit("insert") { return Err(kerr()); } self.inner.insert(jwk).await }
-  async fn sign(&self, key_id: &KeyId, data: &[u8], public_key: &Jwk) -> KeyStorageResult<Vec<u8>> { if self.ctl.hit("sign") { return Err(kerr()); } self.inner.sign(key_id, data, public_key).await }
-  async fn delete(&self, key_id: &KeyId) -> KeyStorageResult<()> { if self.ctl.hit("delete") { return Err(kerr()); } self.inner.delete(key_id).await }
-  async fn exists(&self, key_id: &KeyId) -> KeyStorageResult<bool> { if self.ctl.hit("exists") { return Err(kerr()); } self.inner.exists(key_id).await }
+  async fn generate(&self, key_type: KeyType, alg: JwsAlgorithm) -> KeyStorageResult<JwkGenOutput> { { let k = self.ctl.hit("generate"); if k != 0 { return Err(kerr(k)); } } self.inner.generate(key_type, alg).await }
+  async fn insert(&self, jwk: Jwk) -> KeyStorageResult<KeyId> { { let k = self.ctl.hit("insert"); if k != 0 { return Err(kerr(k)); } } self.inner.insert(jwk).await }
+  async fn sign(&self, key_id: &KeyId, data: &[u8], public_key: &Jwk) -> KeyStorageResult<Vec<u8>> { { let k = self.ctl.hit("sign"); if k != 0 { return Err(kerr(k)); } } self.inner.sign(key_id, data, public_key).await }
+  async fn delete(&self, key_id: &KeyId) -> KeyStorageResult<()> { { let k = self.ctl.hit("delete"); if k != 0 { return Err(kerr(k)); } } self.inner.delete(key_id).await }
+  async fn exists(&self, key_id: &KeyId) -> KeyStorageResult<bool> { { let k = self.ctl.hit("exists"); if k != 0 { return Err(kerr(k)); } } self.inner.exists(key_id).await }
 }
 #[async_trait(?Send)]
 impl KeyIdStorage for FaultyKid {
-  async fn insert_key_id(&self, d: MethodDigest, k: KeyId) -> KeyIdStorageResult<()> { if self.ctl.hit("insert_key_id") { return Err(ierr()); } self.inner.insert_key_id(d, k).await }
-  async fn get_key_id(&self, d: &MethodDigest) -> KeyIdStorageResult<KeyId> { if self.ctl.hit("get_key_id") { return Err(ierr()); } self.inner.get_key_id(d).await }
-  async fn delete_key_id(&self, d: &MethodDigest) -> KeyIdStorageResult<()> { if self.ctl.hit("delete_key_id") { return Err(ierr()); } self.inner.delete_key_id(d).await }
+  async fn insert_key_id(&self, d: MethodDigest, k: KeyId) -> KeyIdStorageResult<()> { { let k = self.ctl.hit("insert_key_id"); if k != 0 { return Err(ierr(k)); } } self.inner.insert_key_id(d, k).await }
+  async fn get_key_id(&self, d: &MethodDigest) -> KeyIdStorageResult<KeyId> { { let k = self.ctl.hit("get_key_id"); if k != 0 { return Err(ierr(k)); } } self.inner.get_key_id(d).await }
+  async fn delete_key_id(&self, d: &MethodDigest) -> KeyIdStorageResult<()> { { let k = self.ctl.hit("delete_key_id"); if k != 0 { return Err(ierr(k)); } } self.inner.delete_key_id(d).await }
 }
 type FStorage = Storage<FaultyJwk, FaultyKid>;
 const RELS: [MethodRelationship; 5] = [MethodRelationship::Authentication, MethodRelationship::AssertionMethod, MethodRelationship::KeyAgreement, MethodRelationship::CapabilityDelegation, MethodRelationship::CapabilityInvocation];
@@ -109,7 +110,7 @@ pub fn exec(case: &[i64]) -> Outcome {
     let mut new_key: Option<i64> = None;
     let (res, target): (Result<(), StorageError>, String) = if op == 0 {
       let k = take1(&mut v).unwrap(); let u = take_u(&mut v); let sc = take1(&mut v).unwrap();
-      let bits = take_lp(&mut v).unwrap(); *w.ctl.script.borrow_mut() = bits.iter().map(|b| *b != 0).collect();
+      let bits = take_lp(&mut v).unwrap(); *w.ctl.script.borrow_mut() = bits.to_vec();
       new_key = Some(k);
       let frag = format!("#f{}", u.f);
       w.ctl.active.set(true);
@@ -119,7 +120,7 @@ pub fn exec(case: &[i64]) -> Outcome {
       (r.map(|_| ()), frag)
     } else {
       let u = take_u(&mut v);
-      let bits = take_lp(&mut v).unwrap(); *w.ctl.script.borrow_mut() = bits.iter().map(|b| *b != 0).collect();
+      let bits = take_lp(&mut v).unwrap(); *w.ctl.script.borrow_mut() = bits.to_vec();
       let id = DIDUrl::parse(c04::ustr(u)).unwrap();
       w.ctl.active.set(true);
       let r = w.doc.purge_method(&w.storage, &id).await;
@@ -142,7 +143,7 @@ pub fn exec(case: &[i64]) -> Outcome {
     obs.extend(key_flags.iter()); obs.extend(kid_flags.iter());
     // ---- the property itself
     let mut o = Outcome::new(obs).class(match kind { 0 => "completed", 1 => "plain-error", _ => "undo-failed" });
-    let faults = w.ctl.script.borrow().iter().filter(|b| **b).count();
+    let faults = w.ctl.script.borrow().iter().filter(|b| **b != 0).count();
     if faults == 0 { o = o.trivial(); }
     match kind {
       1 => {
@@ -186,6 +187,22 @@ pub fn gen(rng: &mut Rng, thorough: bool, sink: &mut Sink) {
     } } }
     for f in [1i64, 2, 3, 5] { for m in masks(4) {
       let mut c = head.clone(); c.extend([1, 1, 0, f]); put_lp(&mut c, &m); sink.case(c, "purge-masks");
+    } }
+  }
+  // the KIND of the injected failure must not matter: every mask again with not-found / unavailable / other kinds on each failing call
+  let kinds_of = |m: &Vec<i64>, k: i64| -> Vec<i64> { m.iter().map(|b| if *b != 0 { k } else { 0 }).collect() };
+  for s in &shapes {
+    let head = { let mut c = c04::enc_start(s, &[]); c.pop(); c };
+    for k in [2i64, 3, 4, 5] { for m in masks(4) { if m.iter().all(|b| *b == 0) { continue; }
+      for (f, sc) in [(1i64, 0i64), (1, 1), (2, 0), (5, 2)] { let mut c = head.clone(); c.extend([0, 9, 1, 0, f, sc]); put_lp(&mut c, &kinds_of(&m, k)); sink.case(c, "generate-masks-kinds"); }
+      for f in [1i64, 2] { let mut c = head.clone(); c.extend([1, 1, 0, f]); put_lp(&mut c, &kinds_of(&m, k)); sink.case(c, "purge-masks-kinds"); }
+      // mixed kinds: the first failing call not-found, the later ones generic (and the other way round)
+      let mut first = true; let mixed: Vec<i64> = m.iter().map(|b| if *b != 0 { let v = if first { k } else { 1 }; first = false; v } else { 0 }).collect();
+      let mut c = head.clone(); c.extend([0, 9, 1, 0, 1, 0]); put_lp(&mut c, &mixed); sink.case(c, "generate-masks-kinds");
+      let mut c = head.clone(); c.extend([1, 1, 0, 1]); put_lp(&mut c, &mixed); sink.case(c, "purge-masks-kinds");
+      let rev: Vec<i64> = { let mut first = true; m.iter().map(|b| if *b != 0 { let v = if first { 1 } else { k }; first = false; v } else { 0 }).collect() };
+      let mut c = head.clone(); c.extend([0, 9, 1, 0, 1, 0]); put_lp(&mut c, &rev); sink.case(c, "generate-masks-kinds");
+      let mut c = head.clone(); c.extend([1, 1, 0, 1]); put_lp(&mut c, &rev); sink.case(c, "purge-masks-kinds");
     } }
   }
   if thorough { for _ in 0..2000 { let s = rng.pick(&shapes); let mut c = c04::enc_start(s, &[]); c.pop(); if rng.chance(1, 2) { c.extend([0, 9, 1, 0, rng.range(1, 5), rng.range(0, 5)]); } else { c.extend([1, 1, 0, rng.range(1, 5)]); } let m: Vec<i64> = (0..6).map(|_| rng.chance(1, 3) as i64).collect(); put_lp(&mut c, &m); sink.case(c, "random-faults"); } }
